@@ -5,7 +5,7 @@
 static inline std::vector<Str> norm_tokens() { return { "", ".", "..", "a", "c:d", "1:b", ":", "%2e", "%2E%2E", "A", "%41", "%7e" }; }
 
 // size 0: small, 1: quick, 2: thorough
-static inline std::vector<Str> norm_corpus(int size) {
+static inline std::vector<Str> norm_corpus(int size, int bonus = 0) {
     std::vector<Str> v; std::set<Str> seen;
     auto add = [&](const Str &s) { if (ref::is_uri_reference(s) && seen.insert(s).second) v.push_back(s); };
     // (a) component product with case / percent-encoding variants
@@ -22,14 +22,14 @@ static inline std::vector<Str> norm_corpus(int size) {
         }
     }
     // (b) path-token sequences in four contexts
-    int n = size == 0 ? 2 : size == 1 ? 3 : 4;
+    int n = (size == 0 ? 2 : size == 1 ? 3 : 4) + bonus;
     std::vector<Str> rl = path_token_paths(norm_tokens(), n, 0), ab = path_token_paths(norm_tokens(), n, 1);
     for (auto &p : rl) { add(p); add("s:" + p); add(p + "?q#f"); }
     for (auto &p : ab) { add(p); add("s:" + p); add("//h" + p); add("S://H" + p + "#f"); }
     // (c) sequences of percent-encoding / case tokens inside every component that normalisation touches: every adjacency of
     //     normal-form triplets, lower-case-hex triplets, triplets of unreserved characters and plain letters
     std::vector<Str> tk = { "a", "A", "%2F", "%2f", "%41", "%7e", "%3A", "-" }; if (size >= 1) { tk.push_back("%7E"); tk.push_back("%4a"); }
-    token_seqs(tk, size == 0 ? 2 : size == 1 ? 3 : 4, [&](const std::vector<int> &q) {
+    token_seqs(tk, (size == 0 ? 2 : size == 1 ? 3 : 4) + bonus, [&](const std::vector<int> &q) {
         if (q.empty()) return; Str t; for (int i : q) t += tk[i];
         add("//" + t + "@h"); add("//" + t); add("/" + t); add("x/" + t + "/y"); add("?" + t); add("#" + t); add("S://u@" + t + ":1/p");
     });
